@@ -274,6 +274,11 @@ def _build_direct(e: EqvCase, part: rs.SysCase, pids, gids, tbs, E5):
     from openfisca_core import simulations
     mode = getattr(e, "direct_mode", "manual")
     roles = list(part.roles or [0] * part.nP)
+    if mode == "default" and part.nG == part.nP and part.mem == list(range(part.nP)) and not any(roles):
+        # everybody alone in a household of its own, in order, holding the first role: SimulationBuilder.build_default_simulation
+        sim = simulations.SimulationBuilder().build_default_simulation(tbs, part.nP)
+        assert sim.household.count == part.nG and list(sim.household.members_entity_id) == part.mem
+        return _set_inputs(part, sim, E5)
     if mode == "join":
         if getattr(e, "int_ids", False):
             pids, gids = [int(x) for x in pids], [int(x) for x in gids]
@@ -293,7 +298,181 @@ def _build_direct(e: EqvCase, part: rs.SysCase, pids, gids, tbs, E5):
     return rs.build_simulation(part, tbs, E5)
 
 
+# --------------------------------------------------------------------------------------
+# group-level stream: the order-dependent operations (value_nth_person, first person, get_rank), which the expression language
+# does not have.  `eqv G <grp line body> S <k> {<n> persons… <m> groups…}`: the operation on the MERGED population and on every
+# part (persons in merged order) built as a population of its own; real populations are built as in C10.
+
+
+def is_grp(case: Case) -> bool:
+    return case.line.startswith("eqv G ")
+
+
+def grp_split(line: str):
+    """-> (tokens of the grp line body, [(sel, gsel)])"""
+    t = line.split()[2:]
+    k = t.index("S")
+    body, rest = t[:k], [int(x) for x in t[k + 1:]]
+    sels, pos = [], 1
+    for _ in range(rest[0]):
+        n = rest[pos]; sel = rest[pos + 1:pos + 1 + n]; pos += 1 + n
+        m = rest[pos]; gsel = rest[pos + 1:pos + 1 + m]; pos += 1 + m
+        sels.append((sel, gsel))
+    return body, sels
+
+
+def grp_level(body) -> str:
+    """does the operation answer per person ("p") or per group ("g")"""
+    op = body[3]
+    if op == "chain":
+        return "p" if body[5] == "p" else "g"
+    return "p" if op in ("rank", "project", "hasrole") else "g"
+
+
+def grp_closed(body, sel, gsel) -> bool:
+    from .. import grputil as G
+    members = G.parse_members(body[2])
+    n, count = len(members), int(body[1])
+    if any(not 0 <= i < n for i in sel) or any(not 0 <= g < count for g in gsel) or len(set(gsel)) != len(gsel):
+        return False
+    if any(a >= b for a, b in zip(sel, sel[1:])):
+        return False                                  # the part keeps the merged order of its persons
+    return all((i in sel) == (members[i][0] in gsel) for i in range(n))
+
+
+def grp_restrict(body, sel, gsel) -> str:
+    """the grp line of the part simulated alone"""
+    from .. import grputil as G
+    roles, count, mtok, op, role, *args = body
+    members = G.parse_members(mtok)
+    ms = [(gsel.index(members[i][0]), members[i][1]) for i in sel]
+
+    def re(tok, idx):
+        kind, vals = G.parse_vals(tok)
+        return G.fmt_vals(kind, [vals[i] for i in idx])
+
+    def rargs(op, a):
+        if op == "nth":
+            return [a[0], a[1], re(a[2], sel)]
+        if op == "rank":
+            return [re(a[0], sel), re(a[1], sel)]
+        if op == "from":
+            return [a[0], re(a[1], sel)]
+        if op == "project":
+            return [re(a[0], gsel)]
+        if op in ("nb", "hasrole"):
+            return []
+        return [re(a[0], sel)]
+    if op == "chain":
+        args = args[:3] + rargs(args[2], args[3:])
+    else:
+        args = rargs(op, args)
+    return " ".join(["grp", roles, str(len(gsel)), G.fmt_members(ms), op, role, *args])
+
+
+def impl_grp(case: Case) -> str:
+    from . import c10
+    body, sels = grp_split(case.line)
+    pl = dict(case.payload.get("grp") or {})
+    outs = [c10.impl(Case(line="grp " + " ".join(body), payload=pl))]
+    for sel, gsel in sels:
+        if not grp_closed(body, sel, gsel):
+            outs.append("ERR")
+            continue
+        outs.append(c10.impl(Case(line=grp_restrict(body, sel, gsel), payload=pl)))
+    return "~".join(outs)
+
+
+def oracle_grp(case: Case, out: str):
+    body, sels = grp_split(case.line)
+    parts = out.split("~")
+    if len(parts) != 1 + len(sels):
+        return ("harness-shape", f"{len(parts)} answers for {1 + len(sels)} populations")
+    merged = parts[0].split(",")
+    level = grp_level(body)
+    for (sel, gsel), part in zip(sels, parts[1:]):
+        if not grp_closed(body, sel, gsel):
+            continue
+        idx = sel if level == "p" else gsel
+        if parts[0] in ("ERR", "[]") or any(i >= len(merged) for i in idx):
+            return ("merge-" + body[3], f"the merged population answered {parts[0]}")
+        want = ",".join(merged[i] for i in idx) or "[]"
+        if part != want:
+            return ("merge-" + body[3],
+                    f"{' '.join(body[3:6])}: merged population answered {parts[0][:200]}; read at the part persons={sel} groups={gsel} that is "
+                    f"{want}; the part simulated alone (same persons in the same order) answered {part}")
+    return None
+
+
+def gen_grp_merge(rng: random.Random, small=False):
+    """a merged population of 2-3 situations, 8-40 households of 1-4 members in all, persons and households interleaved at
+    random; the order-dependent operations; every situation as a part (persons and households in merged order)"""
+    from .. import grputil as G
+    tok = G.DEFAULT_ROLES
+    nH = rng.randint(2, 6) if small else rng.choice([8, 9, 12, 16, 17, 24, 33, 40, rng.randint(8, 40)])
+    k = rng.choice([2, 2, 3])
+    sit = [rng.randrange(k) for _ in range(nH)]
+    for s_ in range(k):
+        sit[s_ % nH] = s_
+    sizes = [rng.choice([1, 2, 2, 3, 3, 4]) for _ in range(nH)]
+    persons = [h for h in range(nH) for _ in range(sizes[h])]
+    style = rng.random()
+    if style < 0.7:
+        rng.shuffle(persons)
+    elif style < 0.85:
+        persons.sort(key=lambda h: (sit[h], h))        # the situations one after the other, households contiguous
+    horder = list(range(nH))
+    rng.shuffle(horder)                               # position of each household in the merged population
+    hpos = {h: j for j, h in enumerate(horder)}
+    empties = [rng.randrange(k) for _ in range(rng.choice([0, 0, 1, 2]))]        # households without member (last ones)
+    count = nH + len(empties)
+    gsit = [sit[h] for h in horder] + empties
+    held = {}
+    members = []
+    for h in persons:
+        r = 2
+        if held.get(h, 0) == 0 and rng.random() < 0.6:
+            r = 3
+        elif held.get(h, 0) == 1 and rng.random() < 0.4:
+            r = 0
+        held[h] = held.get(h, 0) + 1
+        members.append((hpos[h], r))
+    n = len(members)
+    psit = [sit[h] for h in persons]
+    sels = [([i for i in range(n) if psit[i] == s_], [g for g in range(count) if gsit[g] == s_]) for s_ in range(k)]
+    sels = [x for x in sels if x[0]]
+    if k == 3 and len(sels) == 3:
+        keep = rng.sample(range(3), 2)
+        sels.append(([i for i in range(n) if psit[i] in keep], [g for g in range(count) if gsit[g] in keep]))
+    I = lambda v: G.fmt_vals("i", v)
+    a = [rng.randint(-40, 40) for _ in range(n)]
+    crit = rng.sample(range(-200, 201), n)
+    cond = [rng.random() < 0.8 for _ in range(n)]
+    ops = [("nth", "-", str(rng.choice([0, 1, 1, 2, 3])), "-7", I(a)), ("first", "-", I(a)), ("rank", "-", I(crit), G.fmt_vals("b", cond)),
+           ("rank", "-", I(crit), G.fmt_vals("b", [True] * n)), ("chain", "-", "p", "h", "first", I(a)),
+           ("chain", "-", "p", "h", "nth", "1", "0", I(a)), ("chain", "-", "g", "fp", "rank", I(crit), G.fmt_vals("b", cond)),
+           ("max", rng.choice(["-", "t1"]), I(a)), ("positions_via_nth",)]
+    # a wide range of magnitudes across households, a narrow one within: one person holds +-2**53, the other members of its household
+    # 0, everybody else small integers: every household sum is exact in float64, alone and together
+    big_i = rng.randrange(n)
+    wide = [0 if members[i][0] == members[big_i][0] else rng.choice([1, -1, 3, 2, -3, 5, 7]) for i in range(n)]
+    wide[big_i] = rng.choice([1, -1]) * rng.choice([2 ** 53, 2 ** 53, 2 ** 52 + 2 ** 30, 2 ** 40])
+    wide_ops = [("sum", "-", I(wide)), ("chain", "-", "p", "h", "sum", I(wide))]
+    out = []
+    stail = ["S", str(len(sels))]
+    for sel, gsel in sels:
+        stail += [str(len(sel)), *map(str, sel), str(len(gsel)), *map(str, gsel)]
+    for op in rng.sample(ops[:-1], 4) + ([rng.choice(wide_ops)] if rng.random() < 0.5 else []):
+        line = " ".join(["eqv", "G", tok, str(count), G.fmt_members(members), *op, *stail])
+        out.append(Case(line=line, payload={"grp": {"dtype": "float64" if op in wide_ops else rng.choice(["float64", "float32", "int64", "int32"])}},
+                        tags=("grp-merge", op[0] if op[0] != "chain" else "chain-" + op[4], f"situations={k}", f"persons>16={n > 16}") +
+                        (("wide-range-across-households",) if op in wide_ops else ())))
+    return out
+
+
 def impl(case: Case) -> str:
+    if is_grp(case):
+        return impl_grp(case)
     from openfisca_core import errors
     from openfisca_core.simulations import SimulationBuilder
     e: EqvCase = pickle.loads(bytes.fromhex(case.payload))
@@ -323,7 +502,19 @@ def impl(case: Case) -> str:
                 ok = sim.persons.count == 1 and sim.household.count == 1
             else:
                 ok = sorted(ids) == sorted(canon) and [str(x) for x in sim.persons.ids] == pids
-                gperm = None if ids == canon else [ids.index(x) for x in canon] if ok else None
+                gperm = None
+                if ok and (ids != canon or len(set(ids)) != len(ids)):
+                    # declared households come first, in document order; the households appended for persons listed nowhere
+                    # follow (set-iteration order) and bear their person's id -- which may ALSO be the id of a declared household
+                    own_g = getattr(e, "own", None) or {}
+                    n_decl = sum(1 for g in gsel if g not in own_g)
+                    decl_ids, own_ids = ids[:n_decl], ids[n_decl:]
+                    try:
+                        gperm = [n_decl + own_ids.index(x) if g in own_g else decl_ids.index(x) for g, x in zip(gsel, canon)]
+                        if gperm == list(range(len(gperm))):
+                            gperm = None
+                    except ValueError:
+                        ok = False
             if not ok:
                 outs.append("IDS"); douts.append("")   # the builder did not create the entities of the document
                 continue
@@ -350,6 +541,8 @@ def _expected_part(merged_res: str, idx: list):
 
 
 def oracle(case: Case, out: str):
+    if is_grp(case):
+        return oracle_grp(case, out) if case.claimed else None
     if not case.claimed or rs.values_too_large(out.partition("|D:")[0].replace("~", ";")):
         return None
     e: EqvCase = pickle.loads(bytes.fromhex(case.payload))
@@ -411,6 +604,8 @@ def oracle(case: Case, out: str):
 
 
 def canon_equal(case: Case, impl_out: str, model_out: str) -> bool:
+    if is_grp(case):
+        return impl_out == model_out
     impl_out = impl_out.partition("|D:")[0]          # the divide answers are for the oracle only
     if rs.values_too_large(impl_out.replace("~", ";")) or rs.values_too_large(model_out.replace("~", ";")):
         return True          # off the exact lattice (numeric policy): not compared
@@ -418,6 +613,8 @@ def canon_equal(case: Case, impl_out: str, model_out: str) -> bool:
 
 
 def nontrivial(case: Case, out: str) -> bool:
+    if is_grp(case):
+        return "ERR" not in out.split("~") and out.count("~") >= 2
     parts = out.partition("|D:")[0].split("~")
     return len(parts) >= 3 and all("ok:" in p for p in parts[:3])
 
@@ -439,12 +636,12 @@ def gen_population(rng: random.Random, unlisted=False, variant=0):
     each a household of its own (role: the first flattened role), appended after the declared ones.
     -> nP, nG, mem, roles, person situation, household situation, own {household: person}, k"""
     nroles, head, unique, plain = _role_table(variant)
-    k = rng.choice([2, 2, 3])
+    k = rng.choice([2, 2, 2, 3, 3, 4])
     persons, groups = [], []                      # (situation, local id)
     p_group, p_role, loose = {}, {}, set()
     bare = set()                                  # situations without household section
     for s in range(k):
-        nP = rng.randint(1, 4)
+        nP = rng.randint(1, 4 if k < 4 else 3)
         nG = rng.randint(1, min(3, nP))
         mem = list(range(nG)) + [rng.randrange(nG) for _ in range(nP - nG)]
         rng.shuffle(mem)
@@ -669,9 +866,20 @@ def _rewrite_op(e, old: int, new: int):
     return tuple(_rewrite_op(x, old, new) if isinstance(x, tuple) else x for x in e)
 
 
+def singles_population(rng: random.Random):
+    """2-4 situations of single persons, everybody alone in a household of its own stored at the person's index and holding the
+    first role: what SimulationBuilder.build_default_simulation builds (the situations interleaved at random)"""
+    k = rng.choice([2, 2, 3, 4])
+    sit = [s for s in range(k) for _ in range(rng.randint(1, 3))]
+    rng.shuffle(sit)
+    n = len(sit)
+    return n, n, list(range(n)), [0] * n, sit, list(sit), {}, k
+
+
 def gen_eqv(rng: random.Random, direct=False, faults=True, bad_rate=0.0, unlisted=False) -> tuple:
     variant = 1 if rng.random() < 0.4 else 0
-    nP, nG, mem, roles, psit, gsit, own, k = gen_population(rng, unlisted, variant)
+    singles = direct and rng.random() < 0.12
+    nP, nG, mem, roles, psit, gsit, own, k = singles_population(rng) if singles else gen_population(rng, unlisted, variant)
     fault_ids = [] if faults else None
     vars_ = rs.gen_vars(rng, rng.randint(3, 9), fault_ids=fault_ids, bad_rate=bad_rate)
     if variant:
@@ -734,18 +942,21 @@ def gen_eqv(rng: random.Random, direct=False, faults=True, bad_rate=0.0, unliste
     sels = []
     for s in range(k):
         sels.append(("merge", [i for i in range(nP) if psit[i] == s], [g for g in range(nG) if gsit[g] == s]))
-    if k == 3:
-        keep = rng.sample(range(3), 2)
+    if k >= 3:
+        # the union of two (of three) situations out of three (four) is a part as well
+        keep = rng.sample(range(k), rng.choice([2, k - 1]))
         sels.append(("merge", [i for i in range(nP) if psit[i] in keep], [g for g in range(nG) if gsit[g] in keep]))
     ps, gs = list(range(nP)), list(range(nG))
     rng.shuffle(ps); rng.shuffle(gs)
+    if singles and rng.random() < 0.6:
+        gs = list(ps)                             # persons and their households reordered alike: again a default simulation
     sels.append(("permute", ps, gs))
     s = rng.randrange(k)
     ps = [i for i in range(nP) if psit[i] == s]
     gs = [g for g in range(nG) if gsit[g] == s]
     rng.shuffle(ps); rng.shuffle(gs)
     sels.append(("permuted-part", ps, gs))
-    style = rng.choice(["plain", "plain", "shuffled", "int", "shared"])
+    style = "plain" if singles else rng.choice(["plain", "plain", "shuffled", "int", "shared"])
     int_ids = False
     if style == "int" and direct:                 # integer identifiers of different widths and signs (join_with_persons): text order
         int_ids = True                            # is not numeric order
@@ -765,8 +976,20 @@ def gen_eqv(rng: random.Random, direct=False, faults=True, bad_rate=0.0, unliste
         gids = [f"h{g}" for g in range(nG)]
         if style != "plain":                      # ids that do not sort like the indices
             rng.shuffle(pids); rng.shuffle(gids)
+        if own and style == "shared":
+            # persons and households are separate namespaces: a DECLARED household of one situation bears the id of a person
+            # of ANOTHER situation who is listed in no household (and gets a household of its own, named after it)
+            style = "collide"
+            taken = set()
+            for g_own, i in own.items():
+                cands = [g for g in range(nG) if g not in own and gsit[g] != psit[i] and g not in taken]
+                if cands and rng.random() < 0.8:
+                    g = rng.choice(cands)
+                    taken.add(g)
+                    gids[g] = pids[i]
     e = EqvCase(c, pids, gids, sels, direct=direct, member_seed=rng.randrange(1 << 30), own=own, psit=psit, gsit=gsit, absent=absent,
-                direct_mode=("join" if int_ids else rng.choice(["manual", "norole", "join", "join"])) if direct else "manual", int_ids=int_ids, short_form=rng.random() < 0.7,
+                direct_mode=("default" if singles else "join" if int_ids else rng.choice(["manual", "norole", "join", "join"])) if direct else "manual", int_ids=int_ids,
+                short_form=rng.random() < 0.7 and style != "collide",
                 trace=rng.random() < 0.2, req_seed=rng.randrange(3), divs=divs,
                 default_tok=rng.choice([i[1] for i in inputs if not i[1].startswith("eternity")] or [""]) if rng.random() < 0.3 else "")
     tags = ["direct" if direct else "builder", f"situations={k}", f"persons={nP}", f"households={nG}", f"ids={style}"]
@@ -809,8 +1032,11 @@ def gen_eqv(rng: random.Random, direct=False, faults=True, bad_rate=0.0, unliste
 
 
 def generate(rng: random.Random, tier: str):
-    n = 6000 if tier == "quick" else 120000
+    n = 5300 if tier == "quick" else 105000
     out = []
+    # the order-dependent operations, on the merge clause only (group-level stream)
+    for i in range(450 if tier == "quick" else 9000):
+        out += gen_grp_merge(rng, small=(i % 6 == 0))
     for i in range(n):
         direct = rng.random() < 0.2
         e, tags = gen_eqv(rng, direct=direct, faults=rng.random() < 0.4, bad_rate=0.03 if rng.random() < 0.2 else 0.0,
@@ -902,6 +1128,14 @@ def corpus_base():
                     [("calc", 1, M[1]), ("calc", 2, M[1]), ("calc", 3, M[1])], roles=[0, 0, 2, 0], role_variant=1)
     sels5 = [("merge", [0, 2], [0]), ("merge", [1, 3], [1, 2]), ("merge", [1], [1]), ("permute", [3, 2, 1, 0], [2, 0, 1])]
     out.append(_case(EqvCase(c5, ["a1", "b1", "a2", "b2"], ["hA", "?", "?"], sels5, own={1: 1, 2: 3}), ("corpus", "situation-without-household-section")))
+    # the order-dependent operations on a merged population of two situations (households 0, 2 | household 1), persons interleaved
+    gl = "eqv G -:2,-:0,1:0 4 0.3,1.3,2.2,0.2,1.2,2.3,0.2,1.0 {} S 2 5 0 2 3 5 6 3 0 2 3 3 1 4 7 1 1"
+    for opx in ("nth - 1 -7 i:1,2,3,4,5,6,7,8", "nth - 2 0 i:1,2,3,4,5,6,7,8", "first - i:1,2,3,4,5,6,7,8", "rank - i:5,-2,7,1,9,-4,3,0 b:TTTFTTTT",
+                "chain - p h first i:1,2,3,4,5,6,7,8", "chain - g fp rank i:5,-2,7,1,9,-4,3,0 b:TTTTTTTT"):
+        out.append(Case(line=gl.format(opx), payload={"grp": {"dtype": "float64"}}, tags=("corpus", "grp-merge")))
+    r20 = random.Random(20)
+    for _ in range(6):
+        out += gen_grp_merge(r20)
     # a selection that is not a situation
     out.append(_case(EqvCase(c, [f"p{i}" for i in range(5)], [f"h{g}" for g in range(3)], [("merge", [0, 2], [1]), ("open", [1, 3], [0, 2])]),
                      ("corpus", "open-selection")))
@@ -1024,12 +1258,23 @@ PROP = Prop(
           "builder's default-group path; merged with a situation that declares households: the left-out-person path), with role-dependent "
           "variables (nb_persons(first role), role-filtered sum of ones) requested. The order-dependent operations (value_nth_person, first_person, get_rank) "
           "are not in the language: the permutation clause is false of them by definition. "
-          "Document spellings (builder stream): every situation writes its period keys in its own spelling ('2018-01', 'month:2018-01', "
+          "GROUP-LEVEL STREAM (merge clause only; 450 populations x 4 operations per quick run): merged populations of 2-3 situations, 8-40 "
+          "households of 1-4 members (a sixth: 2-6 households), persons and households interleaved at random, households without "
+          "member last; value_nth_person (n = 0..3), value_from_first_person, get_rank (distinct criteria, with and without "
+          "condition), the same through person.household / household.first_person, max as a control, and (half of the populations) a household SUM "
+          "of float64 amounts with a wide range across households and a narrow one within (one person holds +-2**53, its household's "
+          "other members 0, everybody else small integers: exact alone and together); the real populations of "
+          "the merged situation and of every part (its persons in merged order, the union of two parts) are built as in C10 and "
+          "the merged answer read at the part's persons / groups must be the part's own answer. "
+          "Ids 'collide' (a fifth of the documents with unlisted persons): a declared household of one situation bears the id of a person "
+          "of another situation who is listed in no household. Document spellings (builder stream): every situation writes its period keys in its own spelling ('2018-01', 'month:2018-01', "
           "'month:2018-01:1', ETERNITY/eternity: same slot); ids plain / shuffled / Python ints / the same names for persons and households; "
           "30%: a default period is set and values of that period are written bare; parts are built through build_from_dict, with the "
           "single-household ('household': ...), single-person ('person': ...) and variables-only spellings when the part allows them; 30% of "
           "the inputs on variables WITHOUT formula are absent (or null) in one situation: its entities read the default alone and together. "
-          "Direct stream: by hand, by hand with members_role left to its default, or declare_person_entity / declare_entity / "
+          "Populations of 2-4 situations (the union of two or of all but one is a part too). "
+          "Direct stream: 12% populations of single persons built by SimulationBuilder.build_default_simulation (merged, each part, and "
+          "reorderings that move persons and households alike); by hand, by hand with members_role left to its default, or declare_person_entity / declare_entity / "
           "join_with_persons (text or integer identifiers of different widths and signs, in any order, declared households without member in "
           "any position) with roles as keys or as indices. Requests: a third of the "
           "periods are passed as text, 5% of the cases ask for a variable that does not exist, 20% run every simulation with trace=True, "
